@@ -76,3 +76,66 @@ CHECKS["C10"] = dict(
                  "a scenario ends at a panic or a failing Store (the object is then in an unspecified state)",
                  "Reload = manifest.NewDefaultManifestReference(reference of the last Store) with the same load-saver"],
 )
+
+
+# ------------------------------------------------------------------------------------ C09
+def _g09(mode, name, **env):
+    kw = {}
+    for k in ("num", "max", "salt", "depth"):
+        if k in env:
+            kw[k] = env.pop(k)
+    return dict(mode=mode, spec="TraversalGen.tla", cfg="TraversalGen.cfg", name=name, timeout=900,
+                env={"VERIF_" + k.upper(): v for k, v in env.items()}, **kw)
+
+
+def _c09_corrupt(evs):
+    """binding self-test: drop one reported address from a traversal"""
+    for i, e in enumerate(evs):
+        if e.get("op") == "traverse" and len(e.get("t", [])) > 1 and not e.get("err"):
+            e["t"] = e["t"][:-1]
+            e["t32"] = e["t32"][:-1]
+            return i
+    return None
+
+
+CHECKS["C09"] = dict(
+    modules=["manifest", "traversal"], level="model_checking", driver="travdrv",
+    design_ref="5 (C09)",
+    technique="TLA+ model of the hash-trie writer, the joiner's chunk iteration and the manifest walk, checked by TLC for the four set formulas "
+              "of C09; TLC-generated file shapes and directories are uploaded through the real pipeline into a recording store and "
+              "traversal.Traverse/GetChunkHashes/GetPyramid are judged by the TLA+ trace spec over address identifiers",
+    level_text="TLC exhausts Traversal.tla over every file of up to 2B+B+2 chunks (scaled branching B=2/3: three chunk levels, lone-reference carries, "
+               "repeated chunks, four tail classes) and small directories; the generator emits every single-file shape class (1-3 chunks, repeated "
+               "content, empty/1-byte/half/full tail; thorough: also B, B+1, B+2 chunks with the real B = 8192 / 4096) and random directories of "
+               "1-6 files over file-like paths, plain and encrypted; T = W, D in W, P in W, D u P = W are evaluated by TraversalTrace.tla",
+    level_note="trusted: TLC, the recording store (logs every Put), the driver's numbering of byte strings; addresses are compared as exact byte "
+               "strings (32-byte store addresses); paths are file-like (no trailing '/': the directory walk of GetChunkHashes only lists entries "
+               "whose path does not end in '/'); manifest nodes are single-chunk; four-level trees (> 16 TiB) are only covered by the scaled model",
+    design=[dict(spec="MCTraversal.tla", cfg="MCTraversal.cfg", cfg_thorough="MCTraversal_thorough.cfg", workers=8, timeout=1500, coverage=False)],
+    gen=dict(
+        # an encrypted chunk costs ~50x a plain one (padded to 256 KiB, encrypted, hashed; decrypted again by each of the
+        # three observations), hence fewer and smaller encrypted scenarios
+        quick=[_g09("exh", "files", files=1, dir=0, pat=3, enc=0),
+               _g09("exh", "files-enc", files=1, dir=0, pat=2, enc=1),
+               _g09("sim", "dirs-ab", files=6, dir=1, pat=2, enc=0, alpha=2, num=70, depth=20, max=70, salt=2),
+               _g09("sim", "dirs-enc", files=3, dir=1, pat=1, enc=1, alpha=2, num=6, depth=20, max=6, salt=3)],
+        thorough=[_g09("exh", "files", files=1, dir=0, pat=3),
+                  _g09("exh", "big", files=1, dir=0, big=1, enc=0),
+                  _g09("exh", "big-enc", files=1, dir=0, big=1, enc=1, max=1),
+                  _g09("exh", "dir1", files=1, dir=1, pat=1, enc=0, max=150),
+                  _g09("sim", "dirs", files=6, dir=1, pat=3, enc=0, num=300, depth=20, max=300, salt=1),
+                  _g09("sim", "dirs-ab", files=6, dir=1, pat=3, enc=0, alpha=2, num=300, depth=20, max=300, salt=2),
+                  _g09("sim", "dirs-enc", files=6, dir=1, pat=2, enc=1, alpha=2, num=40, depth=20, max=40, salt=3)]),
+    judge=dict(spec="TraversalTrace.tla", cfg="TraversalTrace.cfg"),
+    corrupt=_c09_corrupt,
+    selftest_scenarios=60,
+    driver_timeout=3000,
+    nontrivial=lambda s: any(o["op"] == "upload" and (len(o["pat"]) + o["a"]) > 1 for o in s["ops"]) or any(o["op"] == "mkdir" for o in s["ops"]),
+    rule="TLC-generated scenarios: upload of 1-6 files (shape = blocks of B full chunks + pattern of further chunks over two content ids + tail class), "
+         "optionally linked into a directory manifest (one path per file + up to 2 aliases, optional '/' metadata entry), then Traverse, "
+         "GetChunkHashes, GetPyramid; plain and encrypted; distinct = distinct (encryption, shapes, paths); non-trivial = a multi-chunk file or a directory",
+    exhaustive=dict(quick=False, thorough=False),
+    assumptions=["chunk content is pseudo-random per (seed, content id): equal ids give equal chunks, different ids different chunks",
+                 "every uploaded file of a directory scenario is linked by at least one path; the manifest is stored once",
+                 "keccak/BMT collision freedom: distinct chunks have distinct addresses"],
+)
